@@ -110,13 +110,26 @@ def judge(info: Dict[str, Any], ops: List[Dict[str, Any]]) -> Tuple[Verdicts, Di
     isr = info.get("isr")
     irq_enabled = info.get("irq_enabled")
     latched = bool(info.get("latched", False))  # TimerContext.key_irq_latched (pub field) as last observed
+    latch_ctx = info.get("latch_ctx", " [timer key latch was still set from an earlier event]")
+    # device configuration of the keyboard (as applied by the adapter; Rust only):
+    #   wake_on_press  a new physical press puts one make event into the queue at once (IQ-7000: firmware parks the
+    #                  strobes and waits for the key interrupt)
+    #   tick_events    scan ticks mirror debounced transitions into the queue (off on the IQ-7000: the per-key event
+    #                  grammar and its timing are then not asserted, only the queue accounting)
+    wake_on_press = bool(info.get("wake_on_press", False))
+    tick_events = bool(info.get("tick_events", True))
+    irqc = info.get("irq_count")
 
     keys: Dict[int, KeyHist] = {}
     V = Verdicts()
     facts = {"press_events": 0, "release_events": 0, "repeat_events": 0, "row_share": False,
              "strobe_change_while_held": False, "overflow": False, "kil_nonzero": 0, "kil_reads": 0,
              "keyi_rises": 0, "ticks": 0, "max_fifo": 0, "lossy": 0, "redundant_press": 0, "chatter": 0,
-             "redundant_release": 0, "cpu_strobe_stores": 0, "cpu_wide_strobe_stores": 0, "parked_release": 0}
+             "redundant_release": 0, "cpu_strobe_stores": 0, "cpu_wide_strobe_stores": 0, "parked_release": 0,
+             "keyi_clears": 0, "keyi_rerises": 0, "wake_events": 0, "injected": 0, "inject_fresh_press": 0,
+             "full_queue": 0, "rejected_ops": 0, "imr_values": 0}
+    seen_keyi = False
+    imr_seen = set()
 
     def key(code: int) -> KeyHist:
         k = keys.get(code)
@@ -145,6 +158,9 @@ def judge(info: Dict[str, Any], ops: List[Dict[str, Any]]) -> Tuple[Verdicts, Di
         # ---------------- physical / register operations ----------------
         if verb == "press":
             k = key(args[0])
+            if wake_on_press and not k.held:
+                added.append(args[0] & 0x7F)     # the wake event of a new physical press
+                facts["wake_events"] += 1
             if k.held:
                 k.redundant = True
                 facts["redundant_press"] += 1
@@ -197,6 +213,9 @@ def judge(info: Dict[str, Any], ops: List[Dict[str, Any]]) -> Tuple[Verdicts, Di
         elif verb == "inject":
             k = key(args[0])
             rel = bool(args[1])
+            facts["injected"] += 1
+            if not rel and not k.held:
+                facts["inject_fresh_press"] += 1
             if rel:
                 k.held = False
                 k.rel_lo = 0
@@ -219,6 +238,9 @@ def judge(info: Dict[str, Any], ops: List[Dict[str, Any]]) -> Tuple[Verdicts, Di
             k.rerelease = False
             added.append((args[0] & 0x7F) | (0x80 if rel else 0))
             note_row_share()
+
+        elif verb == "bad":
+            facts["rejected_ops"] += 1
 
         # ---------------- scan ticks performed by this op ----------------
         for tick in op.get("ticks", []):
@@ -269,6 +291,11 @@ def judge(info: Dict[str, Any], ops: List[Dict[str, Any]]) -> Tuple[Verdicts, Di
                         else:
                             k.g = "unknown"
                             k.last = None
+            elif not tick_events:
+                # configuration without event mirroring: whatever a tick enqueues is accounted for in the queue
+                # clause only
+                for ev in events:
+                    added.append((ev["code"] & 0x7F) | (0x80 if ev["release"] else 0))
             else:
                 for ev in events:
                     code = ev["code"] & 0x7F
@@ -363,7 +390,7 @@ def judge(info: Dict[str, Any], ops: List[Dict[str, Any]]) -> Tuple[Verdicts, Di
                         k.clean = hs
 
             # liveness at certain ticks with visible events
-            if certain and events is not None:
+            if certain and events is not None and tick_events:
                 for k in keys.values():
                     if k.code in seen_this_tick:
                         continue
@@ -395,6 +422,8 @@ def judge(info: Dict[str, Any], ops: List[Dict[str, Any]]) -> Tuple[Verdicts, Di
         # ---------------- queue ----------------
         fifo = list(op["fifo"])
         facts["max_fifo"] = max(facts["max_fifo"], len(fifo))
+        if len(fifo) >= cap:
+            facts["full_queue"] += 1
         if len(fifo) > cap:
             V.add("fifo", verb, "queue longer than its capacity", idx, f"len={len(fifo)} capacity={cap}")
         av = op.get("adapter_violation")
@@ -481,16 +510,38 @@ def judge(info: Dict[str, Any], ops: List[Dict[str, Any]]) -> Tuple[Verdicts, Di
             en = op.get("irq_enabled", irq_enabled)
             if isr is not None and (new_isr & 4) and not (int(isr) & 4):
                 facts["keyi_rises"] += 1
-                sfx = " [timer key latch was still set from an earlier event]" if latched else ""
+                if seen_keyi:
+                    facts["keyi_rerises"] += 1   # a rise after firmware (or an acknowledge) had cleared the bit
+                seen_keyi = True
+                sfx = latch_ctx if latched else ""
+                # an adapter that sees inside the operation says whether an event was pending at any observed point
+                # of it (an executed instruction may raise the request and consume the queue in one step)
+                pending = op.get("pending_seen")
+                if pending is None:
+                    pending = bool(fifo)
                 if not en:
                     V.add("keyi", verb, "KEYI raised while keyboard interrupts are disabled" + sfx, idx,
                           f"isr {int(isr):#04x}->{new_isr:#04x} fifo={fifo}")
-                elif not fifo:
+                elif not pending:
                     V.add("keyi", verb, "KEYI raised while no event is pending" + sfx, idx,
                           f"isr {int(isr):#04x}->{new_isr:#04x} fifo=[]")
+            elif isr is not None and (int(isr) & 4) and not (new_isr & 4):
+                facts["keyi_clears"] += 1
             isr = new_isr
             irq_enabled = en
             latched = bool(op.get("latched", False))
+
+        # ---------------- interrupt-request counter (Rust: KeyboardMatrix::irq_count) ----------------
+        if op.get("irq_count") is not None:
+            new_c = int(op["irq_count"])
+            visible = all(t.get("events") is not None for t in op.get("ticks", []))
+            if irqc is not None and visible and verb != "consume" and new_c - int(irqc) > len(added):
+                V.add("keyi", verb, "more key-interrupt requests counted than events enqueued by the operation", idx,
+                      f"irq_count {int(irqc)}->{new_c}, events enqueued={len(added)}")
+            irqc = new_c
+        if op.get("imr") is not None and op["imr"] not in imr_seen:
+            imr_seen.add(op["imr"])
+            facts["imr_values"] = len(imr_seen)
 
     facts["keys"] = len(keys)
     return V, facts
